@@ -81,6 +81,37 @@ Definition preset_map (n : Z) (colbeg colend rowind : list Z) (rlx : list (Z * Z
   let '(m, total) := preset_loop (Z.to_nat n + 1) n colbeg colend rowind rlx colcnt sb' 0 0 (repeat 0 (Z.to_nat (n + 1))) in
   (updZ m n total, sb').
 
+(* the same loop when SuperLU_DYNAMIC_SNODE_STORE is set (Glu->dynamic_snode_bound = YES): only the relaxed supernodes (and the
+   columns that may join them) are given room here, the other H-supernodes get theirs from DynamicSetMap while the
+   factorization runs; map_in_sup[n] is not written, the total goes to Glu->nextlu *)
+Fixpoint preset_loop_dyn (fuel : nat) (n : Z) (colbeg colend rowind : list Z) (rlx : list (Z * Z)) (colcnt sb : list Z)
+                         (j nextpos : Z) (m : list Z) : list Z * Z :=
+  match fuel with
+  | O => (m, nextpos)
+  | S f =>
+    if j <? n then
+      let rsf := match rlx with (fc, _) :: _ => fc | [] => n end in
+      let '(w, nextpos', rlx', m1) :=
+        if rsf =? j then
+          let w0 := match rlx with (_, s) :: _ => s | [] => 1 end in
+          let last := j + w0 in
+          let nrow := Z.of_nat (length (col_rows colbeg colend rowind j (Z.to_nat w0) [])) in
+          let np1 := nextpos + w0 * nrow in
+          let '(i, k) := next_leader (Z.to_nat n + 1) sb j j last in
+          let np2 := if last <? i then np1 + (i - last) * Z.max nrow (nthZ colcnt k) else np1 in
+          (i - j, np2, tl rlx, updZ m j nextpos)
+        else (nthZ sb j, nextpos, rlx, m) in
+      let m2 := fill_neg m1 j 1 (Z.to_nat (w - 1)) in
+      if w <=? 0 then (m2, nextpos') else preset_loop_dyn f n colbeg colend rowind rlx' colcnt sb (j + w) nextpos' m2
+    else (m, nextpos)
+  end.
+
+(* returns (map_in_sup with n+1 entries, Glu->nextlu) *)
+Definition preset_map_dyn (n : Z) (colbeg colend rowind : list Z) (rlx : list (Z * Z)) (colcnt sb : list Z) (maxsup : Z)
+  : list Z * Z :=
+  let sb' := split_super n sb maxsup in
+  preset_loop_dyn (Z.to_nat n + 1) n colbeg colend rowind rlx colcnt sb' 0 0 (repeat 0 (Z.to_nat (n + 1))).
+
 (* ---------------- checker for a storage image ---------------- *)
 (* leaders are the entries >= 0 (columns < n); the image is sound when the leaders' starts are non-decreasing,
    start at 0 and end at total = map[n], and every non-leader points back to a leader *)
